@@ -10,6 +10,7 @@ import (
 	"encoding/json"
 	"fmt"
 	"io"
+	"math"
 	"os"
 	"path/filepath"
 	"runtime"
@@ -244,6 +245,22 @@ func TestExhaustiveHeaders(t *testing.T) {
 			}
 		}
 	}
+	// grid 2: every tag x every special scalar (non-finite / extreme floats of each width, integer
+	// boundaries in each head width, simple values), alone, as a map value, as a map key and
+	// inside an array — the tag handlers convert their content with code of their own
+	if sh == 0 {
+		tags := [][]byte{{0xc0}, {0xc1}, {0xc2}, {0xc3}, {0xd8, 0x3f}, {0xd9, 0x01, 0x04}, {0xd9, 0x01, 0x05}, {0xd9, 0x01, 0x06}, {0xd9, 0x01, 0x07}, {0xd9, 0x03, 0xe8}, {}}
+		for _, tg := range tags {
+			for _, sc := range specialScalars() {
+				item := append(append([]byte{}, tg...), sc...)
+				try(item)
+				try(append(append([]byte{0xbf, 0x61, 0x6b}, item...), 0xff))
+				try(append(append([]byte{0xbf}, item...), 0x01, 0xff))
+				try(append(append([]byte{0x9f}, item...), 0xff))
+				try(append(append([]byte{0xbf, 0x61, 0x6b, 0x82}, item...), item...))
+			}
+		}
+	}
 	if ev.Thorough() {
 		for a := sh; a < 256; a += nsh {
 			for b := 0; b < 256; b++ {
@@ -267,6 +284,49 @@ func TestExhaustiveHeaders(t *testing.T) {
 	}
 	rec.Bulk(2*n, 2*nt, "exhaustive-headers")
 	rec.Sample(map[string]interface{}{"campaign": "exhaustive headers", "inputs": n, "examples_hex": []string{"5b", "9f9f", "d9ffff", "5a3fff", "bf61"}})
+}
+
+// specialScalars lists scalar items whose conversion has corner cases of its own.
+func specialScalars() [][]byte {
+	var out [][]byte
+	for _, f := range []float64{0, math.Copysign(0, -1), 1.5, -1.5, math.NaN(), math.Inf(1), math.Inf(-1), math.MaxFloat64, -math.MaxFloat64, math.SmallestNonzeroFloat64,
+		1e300, -1e300, 9223372036854775808, -9223372036854775809, 253402300800, -62135596801, 1e18, 4294967296.5, math.MaxFloat32, 65504} {
+		b := make([]byte, 9)
+		b[0] = 0xfb
+		binary.BigEndian.PutUint64(b[1:], math.Float64bits(f))
+		out = append(out, b)
+		c := make([]byte, 5)
+		c[0] = 0xfa
+		binary.BigEndian.PutUint32(c[1:], math.Float32bits(float32(f)))
+		out = append(out, c)
+	}
+	// a signalling NaN and a NaN with payload, in both widths; every float16 class
+	out = append(out, []byte{0xfb, 0x7f, 0xf0, 0, 0, 0, 0, 0, 1}, []byte{0xfb, 0xff, 0xff, 0xff, 0xff, 0xff, 0xff, 0xff, 0xff}, []byte{0xfa, 0x7f, 0x80, 0, 1}, []byte{0xfa, 0xff, 0xff, 0xff, 0xff})
+	for _, h := range []uint16{0x0000, 0x8000, 0x3c00, 0x7c00, 0xfc00, 0x7e00, 0xfe00, 0x7c01, 0x0001, 0x7bff, 0xfbff} {
+		out = append(out, []byte{0xf9, byte(h >> 8), byte(h)})
+	}
+	for major := byte(0); major <= 1; major++ {
+		for _, v := range []uint64{0, 23, 24, 255, 256, 65535, 65536, 1<<31 - 1, 1 << 31, 1<<32 - 1, 1 << 32, 1<<53 + 1, 1<<63 - 1, 1 << 63, 1<<64 - 1, 253402300799, 253402300800} {
+			for _, w := range []int{0, 1, 2, 4, 8} {
+				if w == 0 && v > 23 || w == 1 && v > 255 || w == 2 && v > 65535 || w == 4 && v > 1<<32-1 {
+					continue
+				}
+				if w == 0 {
+					out = append(out, []byte{major<<5 | byte(v)})
+					continue
+				}
+				head := []byte{major<<5 | byte(23+map[int]int{1: 1, 2: 2, 4: 3, 8: 4}[w])}
+				for i := w - 1; i >= 0; i-- {
+					head = append(head, byte(v>>(8*uint(i))))
+				}
+				out = append(out, head)
+			}
+		}
+	}
+	for _, sv := range [][]byte{{0xf4}, {0xf5}, {0xf6}, {0xf7}, {0xf8, 0x00}, {0xf8, 0x20}, {0xf8, 0xff}, {0xe0}, {0xf3}, {0xfc}, {0xfd}, {0xfe}, {0xff}, {0x60}, {0x40}, {0x80}, {0xa0}} {
+		out = append(out, sv)
+	}
+	return out
 }
 
 // ---- structure-aware generator
@@ -359,6 +419,11 @@ func (g gen) item(depth int, out *[]byte) {
 		g.head(6, tag, out)
 		g.item(depth-1, out)
 	case 7:
+		if rapid.Bool().Draw(t, "special") {
+			sp := specialScalars()
+			*out = append(*out, sp[rapid.IntRange(0, len(sp)-1).Draw(t, "sp")]...)
+			return
+		}
 		*out = append(*out, 0xe0|byte(rapid.IntRange(0, 31).Draw(t, "simple")))
 		*out = append(*out, rapid.SliceOfN(rapid.Byte(), 0, 8).Draw(t, "fl")...)
 	case 8:
@@ -492,7 +557,7 @@ func checkCuts(all []byte, bounds []int) *cutFailure {
 		return &cutFailure{hex.EncodeToString(all), bounds, len(all), fmt.Sprintf("full stream of %d events decoded to %d lines", len(bounds), len(lines))}
 	}
 	for k := 0; k <= len(all); k++ {
-		if len(all) > 6000 {
+		if len(all) > 2500 {
 			// long streams: every offset within 40 bytes of a 4096-byte buffer boundary, within 2 bytes
 			// of a sample of event boundaries (all those near a buffer boundary or the end), and every
 			// 97th offset elsewhere
